@@ -223,7 +223,9 @@ class MailboxData(MailboxDataInterface[Message]):
         self._uid_validity = 0
         self._next_uid = 0
         self._flags: MaildirFlags | None = None
-        self._messages_lock = subsystem.get().new_rwlock()
+        # shared by every session of this process that opens the mailbox
+        self._messages_lock = subsystem.get().shared_rwlock(
+            os.path.abspath(path))
         self._selected_set = SelectedSet()
 
     @classmethod
@@ -312,7 +314,7 @@ class MailboxData(MailboxDataInterface[Message]):
         dest_maildir = destination._maildir
         try:
             record, maildir_msg = await self._get_maildir_msg(uid)
-        except KeyError:
+        except (KeyError, FileNotFoundError):
             return None
         try:
             raw = self._maildir.get_bytes(record.key)
@@ -342,11 +344,11 @@ class MailboxData(MailboxDataInterface[Message]):
                 return None
         dest_subdir = 'new' if recent else 'cur'
         async with AsyncExitStack() as stack:
-            await stack.enter_async_context(
-                destination.messages_lock.write_lock())
-            if destination is not self:
+            # always in the same order, the locks are shared with others
+            for mbx in sorted({destination._path: destination,
+                               self._path: self}.items()):
                 await stack.enter_async_context(
-                    self.messages_lock.write_lock())
+                    mbx[1].messages_lock.write_lock())
             try:
                 new_filename = maildir.move_message(
                     rec.key, dest_maildir, dest_subdir)
@@ -380,23 +382,28 @@ class MailboxData(MailboxDataInterface[Message]):
                      flag_set: frozenset[Flag], mode: FlagOp) -> Message:
         maildir = self._maildir
         try:
-            record, maildir_msg = await self._get_maildir_msg(uid)
+            async with UidList.with_read(self._path) as uidl:
+                record = uidl.get(uid)
+            key = record.key
+            # reading the flags and renaming the file is one step for
+            # everybody else who lists or updates this mailbox
+            async with self.messages_lock.write_lock():
+                maildir_msg = maildir.get_message_metadata(key)
+                existing_flags = self.maildir_flags.from_maildir(
+                    maildir_msg.get_flags())
+                new_flags = mode.apply(existing_flags, flag_set)
+                new_flags_str = self.maildir_flags.to_maildir(new_flags)
+                maildir_msg.set_flags(new_flags_str)
+                try:
+                    maildir.update_metadata(key, maildir_msg)
+                except (KeyError, FileNotFoundError):
+                    pass
         except (KeyError, FileNotFoundError):
             msg = Message.copy_expunged(cached_msg)
             msg.permanent_flags = mode.apply(msg.permanent_flags, flag_set)
             return msg
-        key = record.key
         email_id = self._get_object_id(record, 'E')
         thread_id = self._get_object_id(record, 'T')
-        existing_flags = self.maildir_flags.from_maildir(
-            maildir_msg.get_flags())
-        new_flags = mode.apply(existing_flags, flag_set)
-        new_flags_str = self.maildir_flags.to_maildir(new_flags)
-        maildir_msg.set_flags(new_flags_str)
-        try:
-            maildir.update_metadata(key, maildir_msg)
-        except (KeyError, FileNotFoundError):
-            pass
         return Message.from_maildir(
             uid, maildir_msg, maildir, key, email_id, thread_id,
             self.maildir_flags)
